@@ -26,81 +26,134 @@ def _closure_body(ctx, parent, n):
     return ctx.prog.bodies.get("%s::{closure#%d}" % (parent.id, n))
 
 
-@predicate("remove_at_position_of_same_vec")
-def remove_at_position(ctx, body, ob):
-    """`v.iter().position(p).map(|i| v.remove(i))`: the index comes from position() over the very vector
-    the closure removes from, and nothing touches the vector in between."""
+def find_lift(ctx, parent):
+    """The OPT lift-out of Packet::parse in either of its shapes
+         v.iter().position(pred).map(|i| v.remove(i))                      (remove inside a closure)
+         match v.iter().position(pred) { Some(i) => Some(v.remove(i)), None => None }   (remove in the function itself)
+    Returns (info, None) or (None, why).  info: vec (local of the vector), pos (position call terminator), pred (body of the
+    position predicate), remove (terminator), remove_body, result (local or ("map", local) that holds Option<removed>)."""
     prog = ctx.prog
-    parent = prog.bodies.get(body.root)
-    if parent is None or body.kind != "Closure":
-        return False, "site is not in a closure"
-    # inside the closure: remove(deref of captured field 0, closure parameter _2)
-    rem = mu.calls(body, r"^std::vec::Vec::<T, A>::(remove|swap_remove)$")
-    if len(rem) != 1:
-        return False, "expected exactly one Vec::remove / swap_remove in the closure"
-    _, t = rem[0]
-    cdefs = mu.defs_of(body)
-    if mu.origin_local(body, cdefs, mu.op_local(t["args"][1])) != 2:
-        return False, "removed index is not the closure's parameter"
-    a0 = t["args"][0]
-    if a0["o"] not in ("copy", "move"):
-        return False, "remove receiver is not a place"
-    steps = mu.trace_back(body, cdefs, a0["pl"]["l"])
-    last = steps[-1][3] if steps else None
-    if not (last and last.get("k") == "use" and last["op"]["o"] in ("copy", "move") and last["op"]["pl"]["l"] == 1
-            and last["op"]["pl"]["p"] and isinstance(last["op"]["pl"]["p"][0], dict) and last["op"]["pl"]["p"][0].get("f") == 0):
-        return False, "remove receiver is not the captured vector"
-    # in the parent: map(position(iter(deref(&V))), closure[&mut V])
+    fam = [parent] + [x for x in prog.bodies.values() if x.kind == "Closure" and x.root == parent.id]
+    rems = []
+    for x in fam:
+        for bi, t in mu.calls(x, r"^std::vec::Vec::<T, A>::(remove|swap_remove)$"):
+            rems.append((x, bi, t))
+    if len(rems) != 1:
+        return None, "expected exactly one Vec::remove / swap_remove under %s (found %d)" % (parent.qname, len(rems))
+    rb, rbi, rt = rems[0]
     defs = mu.defs_of(parent)
-    maps = [(bi, t) for bi, t in mu.calls(parent, r"^std::option::Option::<T>::map$")]
-    for bi, t in maps:
-        cl = mu.op_local(t["args"][1])
-        d = mu.single_def(defs, cl) if cl is not None else None
-        if d is None or d[2].get("k") != "agg" or d[2].get("def") != body.id:
-            continue
+    pos_calls = mu.calls(parent, r"as std::iter::Iterator>::position$")
+    if len(pos_calls) != 1:
+        return None, "expected exactly one Iterator::position call (found %d)" % len(pos_calls)
+    pos_bi, pos_t = pos_calls[0]
+    pos_dest = pos_t["dest"]["l"]
+    # which vector does position() run over:  &mut _it ; _it = <[T]>::iter(_r) ; _r = &*Deref::deref(&V)
+    base = None
+    names = []
+    node = mu.op_local(pos_t["args"][0])
+    for _ in range(8):
+        st = mu.trace_back(parent, defs, node) if node is not None else []
+        if not st:
+            break
+        last = st[-1]
+        if last[2] == "term":
+            names.append(last[3]["callee"]["def"])
+            node = mu.op_local(last[3]["args"][0])
+        else:
+            first = st[0]
+            for s1 in st:
+                if s1[2] != "term" and s1[3].get("k") == "ref" and not s1[3]["pl"]["p"]:
+                    base = s1[3]["pl"]["l"]
+            break
+    if not (len(names) == 2 and names[0].endswith("<impl [T]>::iter") and names[1].endswith("as std::ops::Deref>::deref")) or base is None:
+        return None, "position() is not over `<vec>.iter()` (saw %s)" % names
+    vec = base
+    # the predicate closure
+    pcl = mu.single_def(defs, mu.op_local(pos_t["args"][1]))
+    pred = prog.bodies.get(pcl[2]["def"]) if pcl is not None and pcl[1] != "term" and pcl[2].get("ak") == "closure" else None
+    if pred is None:
+        return None, "position() predicate is not a closure"
+    info = {"vec": vec, "pos": pos_t, "pos_bi": pos_bi, "pred": pred, "remove": rt, "remove_body": rb, "remove_bi": rbi}
+    if rb.kind == "Closure":
+        cdefs = mu.defs_of(rb)
+        if mu.origin_local(rb, cdefs, mu.op_local(rt["args"][1])) != 2:
+            return None, "removed index is not the closure's parameter"
+        a0 = rt["args"][0]
+        steps = mu.trace_back(rb, cdefs, a0["pl"]["l"]) if a0["o"] in ("copy", "move") else []
+        last = steps[-1][3] if steps else None
+        if not (last and last.get("k") == "use" and last["op"]["o"] in ("copy", "move") and last["op"]["pl"]["l"] == 1
+                and last["op"]["pl"]["p"] and isinstance(last["op"]["pl"]["p"][0], dict) and last["op"]["pl"]["p"][0].get("f") == 0):
+            return None, "remove receiver is not the captured vector"
+        maps = [(bi, t) for bi, t in mu.calls(parent, r"^std::option::Option::<T>::map$")
+                if (lambda d: d is not None and d[1] != "term" and d[2].get("ak") == "closure" and d[2].get("def") == rb.id)(
+                    mu.single_def(defs, mu.op_local(t["args"][1])))]
+        if len(maps) != 1:
+            return None, "the closure holding the remove is not passed to exactly one Option::map"
+        mbi, mt = maps[0]
+        d = mu.single_def(defs, mu.op_local(mt["args"][1]))
         cap = mu.op_local(d[2]["ops"][0]) if d[2]["ops"] else None
         capd = mu.single_def(defs, cap) if cap is not None else None
-        if capd is None or capd[2].get("k") != "ref" or not capd[2]["mut"] or capd[2]["pl"]["p"]:
-            return False, "closure does not capture `&mut <local vec>`"
-        vec = capd[2]["pl"]["l"]
-        recv = mu.op_local(t["args"][0])
-        rd = mu.single_def(defs, recv) if recv is not None else None
-        if rd is None or rd[1] != "term" or not rd[2]["callee"]["def"].endswith("as std::iter::Iterator>::position"):
-            return False, "map receiver is not the result of Iterator::position"
-        pos_bi = rd[0]
-        it = mu.op_local(rd[2]["args"][0])
-        chain = mu.trace_back(parent, defs, it)
-        # &mut _it ; _it = slice::iter(_r) ; _r = &(*_d) ; _d = Deref::deref(_g) ; _g = &V
-        calls_seen = []
-        cur = chain
-        base = None
-        node = it
-        for _ in range(8):
-            st = mu.trace_back(parent, defs, node)
-            if not st:
+        if capd is None or capd[2].get("k") != "ref" or not capd[2]["mut"] or capd[2]["pl"]["p"] or capd[2]["pl"]["l"] != vec:
+            return None, "the closure does not capture `&mut` of the vector position() ran over"
+        if mu.origin_local(parent, defs, mu.op_local(mt["args"][0])) != pos_dest:
+            return None, "Option::map is not applied to the result of position()"
+        info["result"] = mt["dest"]["l"]
+        info["borrow_block"] = capd[0]
+    else:
+        # index = payload of the Option position() returned
+        il = mu.op_local(rt["args"][1])
+        cur = il
+        ok_ix = False
+        for _ in range(6):
+            d = mu.single_def(defs, cur) if cur is not None else None
+            if d is None or d[1] == "term" or d[2].get("k") != "use" or d[2]["op"].get("o") not in ("copy", "move"):
                 break
-            last = st[-1]
-            if last[2] == "term":
-                calls_seen.append((last[1], last[3]["callee"]["def"]))
-                node = mu.op_local(last[3]["args"][0])
-                if node is None:
-                    break
-            else:
-                first = st[0]
-                if first[2] != "term" and first[3].get("k") == "ref" and not first[3]["pl"]["p"]:
-                    base = first[3]["pl"]["l"]
+            pl = d[2]["op"]["pl"]
+            if pl["p"]:
+                dc = [p for p in pl["p"] if isinstance(p, dict) and "dc" in p]
+                if dc and dc[0].get("n") == "Some" and mu.origin_local(parent, defs, pl["l"]) == pos_dest:
+                    ok_ix = True
                 break
-        names = [c[1] for c in calls_seen]
-        if not (len(names) == 2 and names[0].endswith("<impl [T]>::iter") and names[1].endswith("as std::ops::Deref>::deref")):
-            return False, "position() is not over `<vec>.iter()` (saw %s)" % names
-        if base != vec:
-            return False, "position() iterates a different vector than the closure removes from"
-        # straight chain iter -> position -> map with no other use of the vector
-        iter_bi = calls_seen[0][0]
-        if parent.blocks[iter_bi]["term"]["target"] != pos_bi or parent.blocks[pos_bi]["term"]["target"] != bi:
-            return False, "iter(), position() and map() are not consecutive"
-        return True, "index is the result of position() over the same vector (local _%d), consecutive calls" % vec
-    return False, "no Option::map call passes this closure"
+            cur = pl["l"]
+        if not ok_ix:
+            return None, "removed index is not the Some payload of the position() result"
+        rl = mu.op_local(rt["args"][0])
+        rd = mu.single_def(defs, rl) if rl is not None else None
+        if rd is None or rd[1] == "term" or rd[2].get("k") != "ref" or not rd[2]["mut"] or rd[2]["pl"]["p"] or rd[2]["pl"]["l"] != vec:
+            return None, "remove receiver is not `&mut` of the vector position() ran over"
+        info["borrow_block"] = rd[0]
+        # Option<removed>: Some { remove result } on this path
+        somes = [(bi, si, s1) for bi, si, s1 in mu.aggregates(parent, "option::Option", "Some")
+                 if s1["rv"]["ops"] and mu.origin_local(parent, defs, mu.op_local(s1["rv"]["ops"][0])) == rt["dest"]["l"]]
+        info["result"] = somes[0][2]["pl"]["l"] if len(somes) == 1 and not somes[0][2]["pl"]["p"] else None
+    # nothing touches the vector between position() and the removal: the only `&mut vec` is the one feeding the removal,
+    # and position() comes first
+    muts = []
+    for bi, bl in enumerate(parent.blocks):
+        if bl["cleanup"]:
+            continue
+        for s1 in bl["stmts"]:
+            if s1["s"] == "assign" and s1["rv"]["k"] == "ref" and s1["rv"]["mut"] and s1["rv"]["pl"]["l"] == vec and not s1["rv"]["pl"]["p"]:
+                muts.append(bi)
+    dom = mu.dominators(parent)
+    if len(muts) != 1 or muts[0] != info["borrow_block"] or pos_bi not in dom[muts[0]]:
+        return None, "the vector is borrowed mutably %d times / not after position()" % len(muts)
+    return info, None
+
+
+@predicate("remove_at_position_of_same_vec")
+def remove_at_position(ctx, body, ob):
+    """`v.remove(i)` where i is what `v.iter().position(p)` returned for the very same vector, nothing mutating it in
+    between - in the closure form (`.map(|i| v.remove(i))`) or the match form."""
+    parent = ctx.prog.bodies.get(body.root) if body.kind == "Closure" else body
+    if parent is None:
+        return False, "enclosing function not found"
+    info, why = find_lift(ctx, parent)
+    if info is None:
+        return False, why
+    if info["remove_body"].id != body.id:
+        return False, "the audited site is not the position()-indexed removal"
+    return True, "index is the result of position() over the same vector (local _%d), not mutated in between" % info["vec"]
 
 
 @predicate("opt_record_selected_by_type_code")
@@ -114,13 +167,14 @@ def opt_selected(ctx, body, ob):
     if callers != ["simple_dns::Packet::parse"]:
         return False, "callers are %s, expected only Packet::parse" % callers
     parent = sites[0][0]
-    # the argument is Option::map(position(.., closure#0), closure#1) and closure#0 tests type_code() == TYPE::OPT
-    c0 = _closure_body(ctx, parent, 0)
-    if c0 is None:
-        return False, "selection closure not found"
+    # the argument is the record removed at the index position() found with the predicate `type_code() == TYPE::OPT`
+    info, why = find_lift(ctx, parent)
+    if info is None:
+        return False, why
+    c0 = info["pred"]
     tc = mu.calls(c0, r"RData::<'a>::type_code$|RData.*::type_code$")
-    eqs = mu.calls(c0, r"TYPE as std::cmp::PartialEq>::eq$")
-    if len(tc) != 1 or len(eqs) != 1:
+    eqs = mu.calls(c0, r"TYPE as std::cmp::PartialEq>::(eq|ne)$")
+    if len(tc) != 1 or len(eqs) != 1 or not eqs[0][1]["callee"]["def"].endswith("::eq"):
         return False, "selection closure is not `type_code() == <TYPE>`"
     pv = None
     for a in eqs[0][1]["args"]:
@@ -138,22 +192,29 @@ def opt_selected(ctx, body, ob):
         pv = pv or d or prog.promoted_value(a)
     if pv is None or not pv[0].endswith("rdata::TYPE") or pv[1] != "OPT":
         return False, "selection closure compares with %s, not TYPE::OPT" % (pv,)
-    # the closure's result is eq()'s result
-    # extract argument flows from the map over position(closure#0)
     defs = mu.defs_of(parent)
     ext = [t for _, t in mu.calls(parent, r"extract_info_from_opt_rr$")]
     if len(ext) != 1:
         return False, "expected one call of extract_info_from_opt_rr"
-    arg = mu.op_local(ext[0]["args"][1])
-    d = mu.single_def(defs, arg)
-    if d is None or d[1] != "term" or not d[2]["callee"]["def"].endswith("Option::<T>::map"):
-        return False, "argument is not `position(..).map(..)`"
-    recv = mu.single_def(defs, mu.op_local(d[2]["args"][0]))
-    if recv is None or recv[1] != "term" or not recv[2]["callee"]["def"].endswith("::position"):
-        return False, "argument is not selected by position()"
-    pcl = mu.single_def(defs, mu.op_local(recv[2]["args"][1]))
-    if pcl is None or pcl[2].get("def") != c0.id:
-        return False, "position() predicate is not the type_code closure"
+    arg = mu.origin_local(parent, defs, mu.op_local(ext[0]["args"][1]))
+    if info.get("result") is None:
+        return False, "cannot identify the Option holding the removed record"
+    if arg != info["result"]:
+        # match form: the argument local is assigned Some(removed) in one arm and None in the other
+        ds = defs.get(arg, [])
+        kinds = set()
+        for (dbi, dsi, x) in ds:
+            if dsi != "term" and x.get("k") == "agg" and x.get("vn") == "None":
+                kinds.add("None")
+            elif dsi != "term" and x.get("k") == "agg" and x.get("vn") == "Some" and x["ops"] and \
+                    mu.origin_local(parent, defs, mu.op_local(x["ops"][0])) == info["remove"]["dest"]["l"]:
+                kinds.add("Some(removed)")
+            elif dsi != "term" and x.get("k") == "use" and mu.origin_local(parent, defs, mu.op_local(x["op"])) == info["result"]:
+                kinds.add("Some(removed)")
+            else:
+                kinds.add("other")
+        if "other" in kinds or "Some(removed)" not in kinds:
+            return False, "the argument is not the record removed at the position() index (assigned from %s)" % sorted(kinds)
     # type_code(): TYPE::OPT is produced only in the arm of variant OPT; Empty(ty) returns the stored type
     tcb = prog.find("simple_dns::RData::type_code")
     if tcb is None:
